@@ -596,6 +596,14 @@ def run_epochs(col, item, freqs, script, mode, real=False, with_std=None, tagbas
     ne = ns = 0
     snaps = {}
     ctx = dict(freqs=freqs, script=script, mode=mode)
+    # every checkpointed key is also the name of a recorded statistic (e.g. "q": the loss statistic and the network): recording
+    # a network must leave the statistics of that name alone
+    if sl is not None and hasattr(sl, "stats"):
+        try:
+            for k in freqs:
+                sl.record_stat(k, 0.5, episode=0, step=0, verbose=0)
+        except Exception:  # noqa: BLE001 - the statistics half is judged by the record search
+            pass
     ok = True
     for j, (key, step, inc) in enumerate(script):
         if inc:
@@ -633,6 +641,7 @@ def run_epochs(col, item, freqs, script, mode, real=False, with_std=None, tagbas
             set_tag(model, tagbase + j + 1)
             snap_now = leaves_of(nnx.state(model))
         before = {name: {k: len(lg.checkpoint_path[k]) for k in freqs} for name, lg in (("ck", ck), ("sl", sl)) if lg is not None}
+        stat_sizes = {k: (len(sl.stats[k]), len(sl.stats_loc[k])) for k in sl.stats} if (sl is not None and hasattr(sl, "stats")) else None
         nsaves = {name: len(r.saves) for name, r in recs.items()}
         if spy is not None:
             spy.calls = []
@@ -697,6 +706,12 @@ def run_epochs(col, item, freqs, script, mode, real=False, with_std=None, tagbas
             if real:
                 for p in new_paths:
                     snaps[(name, p)] = snap_now
+            if name == "sl" and stat_sizes is not None:
+                col.tick(1)
+                now = {k: (len(lg.stats[k]), len(lg.stats_loc[k])) for k in lg.stats}
+                if now != stat_sizes:
+                    col.violation(SIG.format(f"{cname}.record_epoch", "record_epoch-changed-recorded-statistics"), dict(j=j, key=key, before=stat_sizes, after=now, **ctx))
+                    return
             # record_epoch must leave the counters alone
             col.tick(1)
             if lg.n_steps != ns or lg.n_episodes != ne:
